@@ -439,7 +439,11 @@ MORE = {
            'undo (FileStorage, DemoStorage with a FileStorage as changes or '
            'as base), a writer that stores the state it started from, and the '
            'undo path itself: one undo, two undos in one transaction in both '
-           'orders, for every class kind and reference set.',
+           'orders, for every class kind and reference set; ZODB\'s hex '
+           'wrapper (a record-transforming storage) around FileStorage, '
+           'FileStorage with a blob directory and the BlobStorage proxy; a '
+           'merging class whose state shares an object with its class '
+           'metadata (__getnewargs__).',
     'C11': 'A new object reachable only through an existing object whose '
            'store fails; modifications and add() refused by the transaction machinery '
            '(explicit mode outside a transaction, a failed transaction not '
